@@ -872,7 +872,7 @@ func storesFieldOf(fn *ssa.Function, par *ssa.Parameter, field string, seen map[
 // to retained glyphs — SubsetGpos (kerning and attachment among retained
 // glyphs) and SubsetGdef — must see the final list, so they come after it.
 func checkClosureFirst(w *World, r *Report) {
-	r.Rule("closurefirst: in (*Font).Subset the call of SubsetGsub (which extends the glyph list by the closure under substitutions) precedes the calls of SubsetGpos and SubsetGdef on every path (filtering before the closure drops pairs and classes of glyphs that are added later)")
+	r.Rule("closurefirst: in (*Font).Subset the call of SubsetGsub (which extends the glyph list by the closure under substitutions) precedes the calls of SubsetGpos and SubsetGdef on every path (filtering before the closure drops pairs and classes of glyphs that are added later), and no call that extends the glyph list (SubsetGsub, SubsetGlyf) can follow the call of SubsetCMap")
 	fn := w.Func("(*sfnt.Font).Subset")
 	if fn == nil {
 		r.Fatal("(*sfnt.Font).Subset does not resolve")
@@ -912,6 +912,28 @@ func checkClosureFirst(w *World, r *Report) {
 			r.OK("closurefirst", key, w.Pos(c.Pos()), "runs on the final glyph list")
 		default:
 			r.Fail("closurefirst", key, w.Pos(c.Pos()), name+" runs before SubsetGsub has added the glyphs produced by retained substitutions: positioning data and classes of those glyphs are dropped from the subset", nil)
+		}
+	}
+	// the character map is filtered by the final glyph list too: a character of a glyph that the
+	// closure appends (a ligature with its own code point) keeps its mapping
+	if cm := calls["SubsetCMap"]; cm != nil {
+		for _, name := range []string{"SubsetGsub", "SubsetGlyf"} {
+			c := calls[name]
+			if c == nil {
+				continue
+			}
+			key := r.MkKey("closurefirst", fnName(fn), "SubsetCMap after "+name)
+			after := false
+			if cm.Block() == c.Block() {
+				after = before(c, cm)
+			} else {
+				after = !reaches(cm.Block(), c.Block())
+			}
+			if after {
+				r.OK("closurefirst", key, w.Pos(cm.Pos()), "the character map is filtered by the final glyph list")
+			} else {
+				r.FailC("closurefirst", key, []string{"cmap"}, w.Pos(cm.Pos()), "the character map is subsetted before "+name+" has appended the glyphs the closure needs: a character that maps to such a glyph (a ligature with its own code point, a component) loses its mapping although the glyph is in the subset", nil)
+			}
 		}
 	}
 	r.Floor("closurefirst", 2)
